@@ -35,6 +35,7 @@ type PropSpec struct {
 	Title      string
 	Classes    *regexp.Regexp // obligation classes that belong to the property for tagged functions (nil = all)
 	Extra      func(c *Checker) // additional, property specific obligations / analyses
+	Replay     func(c *Checker, o *Obl) map[string]interface{} // property-level replay for obligations without a recipe
 	MinObls    int
 	TrustedBase []string
 	Assumptions []string
@@ -301,6 +302,11 @@ func (c *Checker) report(t0 time.Time, verbose bool) int {
 		}
 		models[o.ID] = model
 		rp := c.replay(o, e, model)
+		if rp["confirmed"] != true && c.Prop.Replay != nil {
+			if r2 := c.Prop.Replay(c, o); r2 != nil {
+				rp = r2
+			}
+		}
 		path := filepath.Join(c.Verif, "replays", id, sname(o.ID)+".json")
 		rp["obligation"] = o.ID
 		rp["property"] = id
